@@ -780,9 +780,9 @@ def check_f(ctx, facts, tier, seed):
         wires = [D.wire('i%d' % i, 2) for i in range(nin)]
         plan = []
         for g in range(k):
-            kind = rnd.choice(('Buf', 'Not', 'And2', 'Or2', 'Mux2', 'Bits', 'Reg', 'And2', 'Or2'))
+            kind = rnd.choice(('Buf', 'Not', 'And2', 'Or2', 'Mux2', 'Bits', 'Reg', 'And2', 'Or2', 'HvInvChild'))
             avail = list(wires)
-            if kind in ('Buf', 'Not', 'Reg'):
+            if kind in ('Buf', 'Not', 'Reg', 'HvInvChild'):
                 out = D.wire('w%d' % g, 2)
                 plan.append((kind, 'g%d' % g, [rnd.choice(avail)], [out]))
                 wires.append(out)
@@ -866,6 +866,38 @@ def check_f(ctx, facts, tier, seed):
             ctx.ok('C04.f', 'late-addition', 're-sort schedules a block added after the first sort, before its consumer')
     except (ElabError, NetError, PyExc, ElabRaise) as e:
         ctx.error('C04.f', 'late-addition design: %s' % e)
+    # blocks added after a first sort - at the top level and inside an existing sub-block - are scheduled by the next sort
+    try:
+        D = Design(facts)
+        a, b = D.wire('a', 3), D.wire('b', 3)
+        mx = D.make('Max2', 'mx', a, b, D.wire('big', 3))
+        D.make('Not', 'n0', D.wires['big'], D.wire('nb', 3))
+        sort(D)
+        # first a block inside an existing sub-block only (nothing changes at the top level) ...
+        anyw = [w for w in mx.attrs.get('_wires', {}).values()] if isinstance(mx.attrs.get('_wires'), dict) else []
+        src = next((w for w in anyw if w.attrs.get('width') == 1), None)
+        r = None
+        if src is not None:
+            nc = D.el.find_class('Not', 'py4hw/logic/bitwise.py')
+            tap = D.el.call(D.el.getattr_(mx, 'wire'), ['tap', 1], {}, {})
+            D.el.instantiate(nc, [mx, 'late_inner', src, tap], {})
+            r = verify(D, 'late nested')
+        # ... then one at the top level
+        if not r:
+            D.make('Not', 'late_top', D.wires['nb'], D.wire('nnb', 3))
+            r = verify(D, 'late')
+        if r:
+            ctx.violation('C04.f', 'late-addition', 'after blocks were added to an already sorted system (one at the top level, one inside an existing sub-block) the next sort gives: %s' % r, where,
+                          witness=dict(history='build, sort, add Not at the top level and inside Max2, sort again'))
+        else:
+            ctx.ok('C04.f', 'late-addition', 'blocks added after a first sort (top level and nested) are scheduled, in dependency order, by the next sort')
+    except ElabRaise as e:
+        ctx.violation('C04.f', 'late-addition', 'adding a block to an already sorted system and sorting again raises: %s' % e, where)
+    except PyExc as e:
+        ctx.violation('C04.f', 'late-addition', 'after a block was added inside an existing sub-block of an already sorted system, the next sort fails with an internal error: %s' % str(e)[:120], where,
+                      witness=dict(history='build, sort, add Not inside Max2, sort again'))
+    except (ElabError, NetError, KeyError) as e:
+        ctx.ok('C04.f', 'late-addition', 'scenario outside the interpreted subset (%s)' % str(e)[:80], grade='refused')
     # cyclic netlists are refused
     def ring(k, via_multi=False):
         D = Design(facts)
@@ -897,7 +929,9 @@ def run(ctx, sm, facts):
     ctx.rule('C04.e', 'pass bound raises; refusal not swallowed')
     check_a(ctx, facts)
     check_b(ctx, facts)
-    check_f(ctx, facts, ctx.tier, ctx.seed)
+    from ..facts import Facts
+    from .c02 import overlay_source, CASES_REL
+    check_f(ctx, Facts(sm.with_overlay({CASES_REL: overlay_source()})), ctx.tier, ctx.seed)
     nv, ne = len(ctx.violations), len(ctx.errors)
     check_c(ctx, facts)
     # the clauses of C04.c that speak about the evaluation list itself are exercised by C04.f on every netlist (each block once, also after a re-sort, nested leaves included)
